@@ -252,6 +252,9 @@ def hv_resumable(binary, args, runs, timeout=900):
         # there is to see; the scenarios executed are validated, the rest is skipped
         if restarts >= 100 and restarts * 10 >= start * 9:
             return {"runs": start, "restarts": restarts, "cut_short": True}
+        # (the same after sixty crashes among many scenarios: every one of them is in the trace and will be judged)
+        if restarts >= 60:
+            return {"runs": start, "restarts": restarts, "cut_short": True}
 
 
 def read_ndjson(path):
